@@ -10,6 +10,10 @@
 //   M <mode:1 exact|2 legacy|3 shell> <density> p0 p1 p2 q0 q1 q2 q3 <nvert> <nface> v... f...
 //     -> body with one mesh geom (mesh given by float vertices and faces), same output as B
 //   K <builtin> <mode> <density> <nparams> params...   -> body with one builtin mesh (mjs_makeMesh)
+//   S <mode 0 separate|1 fusestatic|2 mjs_bodyToFrame of the first static child> <L>  then for level 0 (a hinged body): <n> geoms...
+//        and for every level k = 1..L-1 (a JOINTLESS body, child of level k-1): px py pz q0 q1 q2 q3 <n> geoms...  (geom format of B)
+//     -> "ok <nbody> (mass ipos[3] iquat[4] inertia[3] body_pos[3] body_quat[4])*nbody F full[6]" : every compiled body in id order and
+//        the private mjCBody::fullinertia of the level-0 body (the tensor AccumulateInertia handed to mjuu_fullInertia)
 //   G l0 l1 l2 q0 q1 q2 q3      -> mjuu_globalinertia : 6 numbers
 //   O mass v0 v1 v2             -> mjuu_offcenter     : 6 numbers
 //   F f0 f1 f2 f3 f4 f5         -> mjuu_fullInertia   : "ok quat[4] inertia[3]" | "err <message>"
@@ -95,6 +99,75 @@ int main(void) {
         geoms.push_back(g);
       }
       compile_and_print(s, b, &geoms);
+      mj_deleteSpec(s);
+    } else if (op == "S") {
+      size_t i = 3;
+      bool bad = t.size() < 4;
+      int mode = bad ? 0 : atoi(t[1].c_str()), L = bad ? 0 : atoi(t[2].c_str());
+      mjSpec* s = mj_makeSpec();
+      s->compiler.fusestatic = (mode == 1);
+      mjsBody* cur = NULL;
+      mjsBody* level0 = NULL;
+      mjsBody* level1 = NULL;
+      for (int k = 0; k < L && !bad; k++) {
+        mjsBody* b;
+        if (k == 0) { b = make_body(s, 1); level0 = b; }
+        else {
+          if (i + 7 > t.size()) { bad = true; break; }
+          b = mjs_addBody(cur, NULL);
+          char nm[16]; snprintf(nm, sizeof nm, "c%d", k); mjs_setName(b->element, nm);
+          for (int j = 0; j < 3; j++) b->pos[j] = num(t[i + j]);
+          for (int j = 0; j < 4; j++) b->quat[j] = num(t[i + 3 + j]);
+          i += 7;
+          if (k == 1) level1 = b;
+        }
+        if (i >= t.size()) { bad = true; break; }
+        int n = atoi(t[i].c_str()); i += 1;
+        if (i + 16 * (size_t)n > t.size()) { bad = true; break; }
+        for (int gi = 0; gi < n; gi++, i += 16) {
+          const std::string* a = &t[i];
+          mjsGeom* g = mjs_addGeom(b, NULL);
+          g->type = (mjtGeom)atoi(a[0].c_str());
+          g->typeinertia = atoi(a[1].c_str()) ? mjINERTIA_SHELL : mjINERTIA_VOLUME;
+          g->group = atoi(a[2].c_str());
+          if (atoi(a[3].c_str())) g->mass = num(a[4]);
+          g->density = num(a[5]);
+          for (int j = 0; j < 3; j++) g->size[j] = num(a[6 + j]);
+          for (int j = 0; j < 3; j++) g->pos[j] = num(a[9 + j]);
+          for (int j = 0; j < 4; j++) g->quat[j] = num(a[12 + j]);
+          g->contype = 0; g->conaffinity = 0;
+        }
+        cur = b;
+      }
+      if (bad || i != t.size()) { printf("err parse\n"); mj_deleteSpec(s); continue; }
+      if (mode == 2 && level1) {
+        mjsFrame* f = NULL;
+        if (MJG_TRY) { f = mjs_bodyToFrame(&level1); MJG_END; }
+        if (!f) { printf("err bodyToFrame %s\n", mjs_getError(s)); mj_deleteSpec(s); continue; }
+      }
+      mjModel* m = NULL;
+      if (MJG_TRY) { m = mj_compile(s, NULL); MJG_END; }
+      if (!m) {
+        const char* e = mjs_getError(s);
+        char msg[1024]; snprintf(msg, sizeof msg, "%s", e && e[0] ? e : mjg_last_error);
+        for (char* q = msg; *q; q++) if (*q == '\n' || *q == '\r') *q = ' ';
+        printf("err %s\n", msg);
+      } else {
+        printf("ok %d", (int)m->nbody - 1);
+        for (int b = 1; b < m->nbody; b++) {
+          printf(" %a", m->body_mass[b]);
+          for (int j = 0; j < 3; j++) printf(" %a", m->body_ipos[3 * b + j]);
+          for (int j = 0; j < 4; j++) printf(" %a", m->body_iquat[4 * b + j]);
+          for (int j = 0; j < 3; j++) printf(" %a", m->body_inertia[3 * b + j]);
+          for (int j = 0; j < 3; j++) printf(" %a", m->body_pos[3 * b + j]);
+          for (int j = 0; j < 4; j++) printf(" %a", m->body_quat[4 * b + j]);
+        }
+        mjCBody* cb = static_cast<mjCBody*>(level0->element);
+        printf(" F");
+        for (int j = 0; j < 6; j++) printf(" %a", cb->fullinertia[j]);
+        printf("\n");
+        mj_deleteModel(m);
+      }
       mj_deleteSpec(s);
     } else if (op == "M" || op == "K") {
       mjSpec* s = mj_makeSpec();
